@@ -27,20 +27,43 @@ def main():
     jm = os.path.join(wt, "jmespath")
     demo_dst = os.path.join(jm, "tests", "seed_demo.rs")
     sh("git checkout -- . && rm -f jmespath/tests/seed_demo.rs", cwd=wt)
-    if not os.environ.get("SKIP_CONFIRM"):
+    demo_sh = os.path.join(sd, "demo.sh")
+    if os.path.exists(demo_sh) and not os.environ.get("SKIP_CONFIRM"):
+        cli = os.path.join(wt, "jmespath-cli")
+        sh("rm -f Cargo.lock", cwd=cli)
+        rc, out = sh("git apply %s" % patch, cwd=wt)
+        assert rc == 0, out
+        rc, out = sh("cargo build --offline 2>&1 | tail -2", cwd=cli)
+        rc1, out1 = sh("bash %s %s/target/debug/jp 2>&1" % (demo_sh, cli), cwd=cli)
+        ran.append({"cmd": "demo.sh with change", "rc": rc1, "result": out1.strip().splitlines()[-5:]})
+        sh("git checkout -- jmespath-cli/src", cwd=wt)
+        rc, out = sh("cargo build --offline 2>&1 | tail -2", cwd=cli)
+        rc2, out2 = sh("bash %s %s/target/debug/jp 2>&1" % (demo_sh, cli), cwd=cli)
+        ran.append({"cmd": "demo.sh clean", "rc": rc2, "result": out2.strip().splitlines()[-5:]})
+        sh("git checkout -- .", cwd=wt)
+        print("confirmed: demo_fails_with=%s demo_passes_without=%s" % (rc1 != 0, rc2 == 0))
+        if not (rc1 != 0 and rc2 == 0):
+            print("NOT KEPT")
+            return 1
+    elif not os.environ.get("SKIP_CONFIRM"):
+        demo_cmd = meta.get("demo_cmd", "cargo test --offline --test seed_demo")
+        if "CARGO_NET_OFFLINE" in demo_cmd:
+            demo_cmd = demo_cmd.split("CARGO_NET_OFFLINE=true")[-1].strip()
+        if demo_cmd.startswith("cd "):
+            demo_cmd = demo_cmd.split("&&", 1)[1].strip()
         rc, out = sh("git apply %s" % patch, cwd=wt)
         assert rc == 0, out
         rc, out = sh("cargo test --offline 2>&1 | grep -E '^test result|FAILED|panicked'", cwd=jm)
         suite_green = "FAILED" not in out and "panicked" not in out and out.count("test result: ok") >= 3
         ran.append({"cmd": "cargo test --offline (with change)", "result": out.strip().splitlines()})
         shutil.copy(os.path.join(sd, "demo.rs"), demo_dst)
-        rc, out = sh("cargo test --offline --test seed_demo 2>&1 | grep -E '^test result|^test .*FAILED' | head -8", cwd=jm)
+        rc, out = sh(demo_cmd + " 2>&1 | grep -E '^test result|^test .*FAILED|^error' | head -8", cwd=jm)
         demo_fails_with = "FAILED" in out
-        ran.append({"cmd": "cargo test --offline --test seed_demo (with change)", "result": out.strip().splitlines()})
+        ran.append({"cmd": demo_cmd + " (with change)", "result": out.strip().splitlines()})
         sh("git checkout -- .", cwd=wt)
-        rc, out = sh("cargo test --offline --test seed_demo 2>&1 | grep -E '^test result|^test .*FAILED' | head -8", cwd=jm)
+        rc, out = sh(demo_cmd + " 2>&1 | grep -E '^test result|^test .*FAILED|^error' | head -8", cwd=jm)
         demo_passes_without = "FAILED" not in out and "test result: ok" in out
-        ran.append({"cmd": "cargo test --offline --test seed_demo (clean)", "result": out.strip().splitlines()})
+        ran.append({"cmd": demo_cmd + " (clean)", "result": out.strip().splitlines()})
         os.remove(demo_dst)
         print("confirmed: suite_green=%s demo_fails_with=%s demo_passes_without=%s" % (suite_green, demo_fails_with, demo_passes_without))
         if not (suite_green and demo_fails_with and demo_passes_without):
@@ -75,7 +98,9 @@ def main():
     dst = os.path.join(ROOT, "seeded", "%s-%s" % (pid, sn))
     os.makedirs(dst, exist_ok=True)
     shutil.copy(patch, os.path.join(dst, "patch.diff"))
-    shutil.copy(os.path.join(sd, "demo.rs"), os.path.join(dst, "demo.rs"))
+    for demo in ("demo.rs", "demo.sh"):
+        if os.path.exists(os.path.join(sd, demo)):
+            shutil.copy(os.path.join(sd, demo), os.path.join(dst, demo))
     meta["confirmed_by"] = ran
     meta["checks_against_repo_with_change"] = results
     meta["caught_by"] = [c for c, r in results.items() if r["exit"] == 1]
